@@ -1,7 +1,7 @@
 (** C07: the text ToStringVisitor produces for the callbacks of a value is the documented notation of the value:
     strings verbatim, [a, b], (a, b), Name{ f: v, g: w }, {null}, the active alternative of a variant as itself. *)
 From Coq Require Import List NArith ZArith Bool Lia.
-From BL Require Import Base.Bytes Mser.Types Mser.Encode Mser.EncodeProofs Mser.Tag Mser.Visit Mser.TagProofs Mser.VisitProofs Render.Time Render.Message.
+From BL Require Import Base.Bytes Mser.Types Mser.Encode Mser.EncodeProofs Mser.Tag Mser.Visit Mser.TagProofs Mser.EnumProofs Mser.VisitProofs Render.Time Render.Message.
 Import ListNotations.
 Local Open Scope N_scope.
 
@@ -17,6 +17,7 @@ Fixpoint joinl (l : list bytes) : bytes :=
 Fixpoint text_of (t : ty) (v : val) {struct v} : bytes :=
   match t, v with
   | TArith a, VRaw x => arith_text ft (atag a) x
+  | TEnum _ a es, VRaw x => match lookup a es (hex_Z (raw_to_Z a x)) with [] => [48; 120] ++ hex_Z (raw_to_Z a x) | nm => nm end   (* the enumerator, or 0xHEX *)
   | Types.TSeq _ e, VSeq vs => if is_char e then map raw_of vs else [91] ++ joinl (map (text_of e) vs) ++ [93]
   | TTuple ts, VTup vs =>
       [40] ++ joinl ((fix go (vs : list val) (ts : list ty) {struct vs} : list bytes :=
@@ -194,6 +195,7 @@ Theorem tostring_prints : forall v t inv, wt t v = true -> simple inv t = true -
 Proof.
   induction v using val_ind'; intros t inv Hwt Hs Hnu; destruct t; try discriminate; try congruence.
   - (* arithmetic *) cbn [callbacks_b text_of]. apply leaf_prints. intros s. reflexivity.
+  - (* adapted enum *) cbn [callbacks_b text_of]. apply leaf_prints. intros s. cbn [tostring_step]. destruct (comma s) as [s1 t]. destruct (lookup a enumerators (hex_Z (raw_to_Z a x))); reflexivity.
   - (* sequence *)
     cbn [wt] in Hwt. apply andb_true_iff in Hwt. destruct Hwt as [Hwt _]. apply andb_true_iff in Hwt. destruct Hwt as [Hall _].
     rewrite forallb_forall in Hall. cbn [simple] in Hs. cbn [callbacks_b text_of andb].
